@@ -157,13 +157,21 @@ def prop_modules(prop: str, kind: str) -> List[str]:
     sets) live in its own files; they are built, audited and counted exactly like the main module."""
     d = LEAN / "MlodaVerif" / kind
     out = [f"MlodaVerif.{kind}.{prop}"] if (d / f"{prop}.lean").exists() else []
-    out += [f"MlodaVerif.{kind}.{f.stem}" for f in sorted(d.glob(f"{prop}_*.lean"))]
+    out += [f"MlodaVerif.{kind}.{f.stem}" for f in sorted(d.glob(f"{prop}_*.lean")) if _ext_enabled(f.stem)]
     return out
+
+
+def _ext_enabled(stem: str) -> bool:
+    """development aid: VERIF_EXT=graph,gen restricts a run to the named extension topics (default: all of them)"""
+    only = os.environ.get("VERIF_EXT")
+    if only is None:
+        return True
+    return stem.split("_", 1)[1] in [t.strip() for t in only.split(",") if t.strip()]
 
 
 def corr_submodules(prop: str) -> List[str]:
     d = VERIF / "harness" / "corr"
-    return [f"harness.corr.{f.stem}" for f in sorted(d.glob(f"{prop.lower()}_*.py"))]
+    return [f"harness.corr.{f.stem}" for f in sorted(d.glob(f"{prop.lower()}_*.py")) if _ext_enabled(f.stem)]
 
 
 def grep_forbidden(prop: Optional[str] = None) -> List[str]:
